@@ -123,6 +123,10 @@ func main() {
 			fmt.Println("cannot write result:", err)
 			os.Exit(3)
 		}
+	case "race":
+		raceMain(os.Args[2:])
+	case "probe-self":
+		probeSelf()
 	case "facts":
 		if err := factsMain(os.Args[2:]); err != nil {
 			fmt.Println("facts:", err)
